@@ -67,6 +67,8 @@ def shards(tier, seed):
     # sample counts around 2^20 (a natural block size): conservation must not depend on the amount of data
     for nsamp in ([2**20 + 64] if tier == 'quick' else [2**20 - 1, 2**20 + 64, 2**21 + 3]):
         out.append({'kind': 'large', 'nsamp': nsamp})
+    if tier == 'thorough':
+        out.append({'kind': 'huge'})  # > 2^24 voxels and > 65535 samples in one voxel
     hi = 2048 if tier == 'thorough' else 1024
     for lo in range(1, hi + 1, 128):
         out.append({'kind': 'roundtrip', 'lo': lo, 'hi': min(lo + 127, hi)})
@@ -249,6 +251,26 @@ def run_shard(shard) -> Result:
                 res.violation(kind, {'coords': coords.tolist(), 'M': np.asarray(M).tolist(), 'res': r}, detail)
         res.sample({'grid3d_cell': abc, 'resolution': r})
         return res
+    if shard['kind'] == 'huge':
+        from gemdat.volume import trajectory_to_volume
+
+        M = np.eye(3) * 25.75
+        T = 70001
+        coords = np.zeros((T, 1, 3)) + np.array([0.5019, 0.2503, 0.7507])
+        coords[::1000, 0, :] = [0.1003, 0.9007, 0.3001]
+        traj = concretise.make_trajectory(coords, ['Li'], M)
+        try:
+            vol = trajectory_to_volume(traj, resolution=0.1)
+            data = np.asarray(vol.data)
+            res.evals += T
+            res.stats['samples_sharp'] += T
+            res.outcome(('huge', data.shape, int(data.max())))
+            if int(data.sum(dtype=np.int64)) != T or int(data.max()) != T - len(coords[::1000]):
+                res.violation('voxel-sum-not-frames-times-atoms', {'huge': True}, f'grid {data.shape}: sum {int(data.sum(dtype=np.int64))} max {int(data.max())} expected {T} / {T - len(coords[::1000])}')
+        except Exception as e:  # noqa: BLE001
+            res.violation(f'volume-raise-{type(e).__name__}', {'huge': True}, str(e))
+        res.sample({'huge_grid': '257^3 voxels, 70001 frames'})
+        return res
     if shard['kind'] == 'large':
         from gemdat.volume import trajectory_to_volume
 
@@ -324,6 +346,9 @@ def finalize(total, tier):
 
 
 def replay(case):
+    if case.get('huge'):
+        r = run_shard({'kind': 'huge'})
+        return [{'kind': v['kind'], 'detail': v['detail']} for v in r.viols]
     if 'large_nsamp' in case:
         r = run_shard({'kind': 'large', 'nsamp': case['large_nsamp']})
         return [{'kind': v['kind'], 'detail': v['detail']} for v in r.viols]
